@@ -447,7 +447,9 @@ def key_shapes(doc):
                 if not c.isidentifier() or keyword.iskeyword(c):
                     bad.add(k)
             elif isinstance(v, list) and any(isinstance(e, dict) for e in v):
-                if not k.replace('-', '_').replace(' ', '_').strip('_').replace('_', 'a').isalnum() or k[:1].isdigit():
+                # class name of a list's model: humanize + singularize; judged here without calling the inflector
+                c = ''.join(w.title() for w in f.split('_'))
+                if not c.isidentifier() or keyword.iskeyword(c) or keyword.iskeyword(c[:-1]):
                     bad.add(k)
     return bad, nfkc
 
@@ -542,6 +544,21 @@ def union_nodes(tree, out):
     return out
 
 
+def has_union_with_list(src):
+    """some annotation of the module is a Union one of whose members is a List"""
+    try:
+        a = scan_ast(src)
+    except SyntaxError:
+        return False
+    for c in a['classes']:
+        for _f, t in c[2]:
+            for members in union_nodes(t, []):
+                for m in members:
+                    if m in (['name', 'List'], ['name', 'list']) or (m[0] == 'sub' and m[1] in (['name', 'List'], ['name', 'list'])):
+                        return True
+    return False
+
+
 def field_annotation(src, class_name, field_name):
     try:
         a = scan_ast(src)
@@ -602,13 +619,16 @@ def attribute(kind, exc, doc, src, diag, shapes, bad_keys, nfkc_keys, offending=
             for members in union_nodes(tree, []):
                 if len(members) > 1 and ['name', 'str'] not in members and isinstance(getattr(exc, 'obj', None), str):
                     return 'gs-union-of-converted-strings'
+            if ('mixed-list' in shapes or 'list-in-list' in shapes) and has_union_with_list(src):
+                return 'gs-union-with-list'
             return None
         if 'numeric-not-int' in shapes and 'invalid literal for int()' in msg:
             return 'gs-force-strings-isnumeric'
         if 'null-in-later-list' in shapes and (name == 'MissingData' or 'NoneType' in msg or 'value=None' in msg):
             return 'gs-null-list-element-merge'
-        if ('mixed-object' in shapes or 'mixed-list' in shapes) and name in ('ParseError', 'TypeError', 'AttributeError', 'MissingData'):
-            return 'gs-union-with-class' if 'mixed-object' in shapes else None
+        if ('mixed-list' in shapes or 'list-in-list' in shapes) and has_union_with_list(src) and \
+                name in ('ParseError', 'ValueError', 'TypeError', 'AttributeError', 'MissingData'):
+            return 'gs-union-with-list'
     return None
 
 
@@ -1063,7 +1083,7 @@ def run(ctx: C.Ctx):
         '"valid Python that imports" and "from_dict loads the document" are runtime facts established by the oracle on every case, '
         'not by a theorem',
     ]
-    n = ctx.quick(900, 16000)
+    n = ctx.quick(1500, 20000)
     budget = ctx.quick(34, 430)
     t0 = time.time()
     tm = TempModules()
